@@ -52,8 +52,34 @@ def sources(tier, seed, ctx):
     w = {'replace_subcircuit': 8, 'rename_gate': 4, 'replace_inputs': 3, 'remove_gate': 3, 'add_gate': 12, 'connect': 2}
     for j in range(nrand):
         srcs.append({'k': 'rand', 'seed': rng.randrange(10**9), 'n': rng.randint(6, 18), 'w': w, 'from': 'rand'})
+    srcs += _loop_closing(tier)
     ctx['gen_note'] = '; '.join(note)
     return srcs
+
+
+def _loop_closing(tier):
+    """A functionally equivalent replacement whose first output structurally reads a slice input that lies DOWNSTREAM of that
+    output ((A & B) | (M & ~M)): putting it in would close a loop, so it has to be refused - in a host of any size."""
+    rec = lambda gates, ins, outs: {'g': {l: {'t': t, 'o': list(o)} for l, t, o in gates}, 'ord': [g[0] for g in gates], 'i': list(ins), 'o': list(outs), 'b': {}}
+    out = []
+    for padding in ([8, 300] if tier == 'quick' else [8, 60, 250, 300, 600, 1200]):
+        gates = [('a', 'INPUT', []), ('b', 'INPUT', []), ('c', 'INPUT', []), ('s1', 'AND', ['a', 'b']), ('m', 'NOT', ['s1']), ('s2', 'OR', ['b', 'm'])]
+        prev = 'c'
+        for i in range(padding):
+            gates.append((f'p{i}', 'NOT', [prev]))
+            prev = f'p{i}'
+        host = rec(gates, ['a', 'b', 'c'], ['s2', prev])
+        for redundant in (False, True):
+            sg = [('A', 'INPUT', []), ('B', 'INPUT', []), ('M', 'INPUT', [])]
+            if redundant:
+                sg += [('nM', 'NOT', ['M']), ('z', 'AND', ['M', 'nM']), ('t', 'AND', ['A', 'B']), ('O1', 'OR', ['t', 'z'])]
+            else:
+                sg += [('O1', 'AND', ['A', 'B'])]
+            sg += [('O2', 'OR', ['B', 'M'])]
+            sub = rec(sg, ['A', 'B', 'M'], ['O1', 'O2'])
+            out.append({'k': 'hist', 'init': host, 'from': 'scripted',
+                        'acts': [{'a': 'replace_subcircuit', 'sub': sub, 'im': [['a', 'A'], ['b', 'B'], ['m', 'M']], 'om': [['s1', 'O1'], ['s2', 'O2']], 'equiv': True}]})
+    return out
 
 
 def record(src):
